@@ -637,8 +637,11 @@ def numpy2sqlite(typename):
     Convert a numpy type to a sqlite column type.
     """
 
-    tname = typename.strip().lower()
-    tname = _remove_byteorder(tname)
+    tname = _remove_byteorder(typename.strip())
+    if tname[0] == 'U':
+        # unicode string; lower case 'u4' is an unsigned integer
+        return 'text'
+    tname = tname.lower()
 
     if tname[0] == 's':
         return 'text'
